@@ -203,3 +203,12 @@ package respondent
 //@   ensures result.Self == 99 && result.Peer == 98 && result.SelfName == "respondent" && result.PeerName == "surveyor"
 //@
 // ---- end generated Info contracts ----
+
+// ---- generated wrapper contracts (tools/gen_wrapper_contracts.py) ----
+//@ func NewSocket
+//@   ghost pr = result at call:NewProtocol#1
+//@   ghost so = result at call:MakeSocket#1
+//@   before call:NewProtocol#1 assert callee_is("protocol/respondent.NewProtocol")
+//@   before call:MakeSocket#1 assert arg0 == pr
+//@   ensures isnil(result1) && result0 == so
+// ---- end generated wrapper contracts ----
